@@ -416,6 +416,9 @@ func isLocalCell(a *ssa.Alloc) bool {
 
 // SameValue: a and b have a common single root (the same SSA value after peeling).
 func SameValue(a, b ssa.Value) bool {
+	if Peel(a) == Peel(b) {
+		return true
+	}
 	ra, rb := Roots(a), Roots(b)
 	if len(ra) != 1 || len(rb) != 1 {
 		return false
@@ -989,6 +992,13 @@ func SliceBack(v ssa.Value, visit func(ssa.Value) bool) {
 			rec(x.X, d+1)
 		case *ssa.TypeAssert:
 			rec(x.X, d+1)
+		case *ssa.Alloc:
+			// a local struct/array: whatever is stored into it as a whole
+			for _, r := range Refs(x) {
+				if st, ok := r.(*ssa.Store); ok && st.Addr == ssa.Value(x) {
+					rec(st.Val, d+1)
+				}
+			}
 		}
 	}
 	rec(v, 0)
